@@ -108,3 +108,28 @@ Definition block_nodes (fields : list bbfield) (b : block) : list node := flat_m
 
 (** the three-bit flag lattice as a list, for the finite statements *)
 Definition lattice : list Z := [0; 1; 2; 3; 4; 5; 6; 7].
+
+(* ------------------------------------------------------------------------------------ *)
+(** * Types, as `contain_qubit_ty` walks them (tys/qubit.py QubitFinder over tys/ty.py) *)
+
+(** - GQubit   the OpaqueType that is the qubit type;
+    - GLeaf    NumericType, NoneType, type variables (their `visit` calls the visitor once);
+    - GOpaque  any other OpaqueType (array, list, option, ...): arguments, [None] = a const argument;
+    - GTuple   TupleType (a ParametrizedTypeBase whose args are its element types);
+    - GStruct  StructType: generic arguments and the (instantiated) field types.
+    Function types are not modelled. *)
+Inductive gty :=
+| GQubit
+| GLeaf
+| GOpaque (args : list (option gty))
+| GTuple (args : list (option gty))
+| GStruct (args : list (option gty)) (fields : list gty).
+
+(** SPECIFICATION: a qubit occurs somewhere inside the type (any depth; type arguments, tuple
+    elements, struct fields) *)
+Inductive qubit_occurs : gty -> Prop :=
+| QO_here : qubit_occurs GQubit
+| QO_opaque : forall args u, In (Some u) args -> qubit_occurs u -> qubit_occurs (GOpaque args)
+| QO_tuple : forall args u, In (Some u) args -> qubit_occurs u -> qubit_occurs (GTuple args)
+| QO_sarg : forall args fs u, In (Some u) args -> qubit_occurs u -> qubit_occurs (GStruct args fs)
+| QO_field : forall args fs u, In u fs -> qubit_occurs u -> qubit_occurs (GStruct args fs).
